@@ -21,9 +21,19 @@ for d in sorted(glob.glob('/verif/seeded/C*-*')):
         if any(l.startswith('PASS') for l in ls): return 'MISSED (PASS)'
         return 'other: ' + (ls[-1][:60] if ls else r['hdr'][-20:])
     hist = ['%s@%s: %s' % (pid, (re.search(r'verif_head=(\w+)', r['hdr']) or re.search(r'repo_head=(\w+)', r['hdr'])).group(1), verdict(r)) for pid, r in runs]
-    rows.append((sid, meta.get('summary', '')[:160].replace('|', '/'), hist))
+    own = [verdict(r) for pid, r in runs if pid == sid.split('-')[0]]
+    rows.append((sid, (meta.get('summary') or meta.get('what') or meta.get('description') or '')[:160].replace('|', '/'), hist, own))
 with open('/verif/seeded/RESULTS.md', 'w') as f:
     f.write('# Seeded breaking changes and what the checks reported\n\nEach row: a change produced by an independent engineer who saw only the property text, confirmed by the coordinator (applies, suite passes, demo exits 0 unpatched / 1 patched), then run through `tools/seed_run.sh` (private copy of /verif, patched scratch worktree). History is oldest run first; a MISSED entry followed by VIOLATION means the check was strengthened in between.\n\n| seed | change | runs |\n|---|---|---|\n')
-    for sid, s, hist in rows:
+    for sid, s, hist, own in sorted(rows, key=lambda r: (r[0].split('-')[0], int(r[0].split('-')[1]))):
         f.write('| %s | %s | %s |\n' % (sid, s, '<br>'.join(hist) or '(not run yet)'))
+    # summary per round: outcome of the FIRST run of the property's own check, and of the LAST one
+    f.write('\n### Summary by round (own check of the seeded property; first run / latest run)\n\n| round | seeds | first run: replay | first run: no-failing-input-found | first run: missed | latest run: replay | latest: no-failing-input-found | latest: missed | not run |\n|---|---|---|---|---|---|---|---|---|\n')
+    for rd in range(1, 6):
+        sel = [r for r in rows if (int(r[0].split('-')[1]) - 1) // 3 + 1 == rd]
+        def cnt(i, key): return sum(1 for r in sel if r[3] and r[3][i].startswith(key))
+        f.write('| %d | %d | %d | %d | %d | %d | %d | %d | %d |\n' % (rd, len(sel), cnt(0, 'VIOLATION+replay'), cnt(0, 'VIOLATION no-'), cnt(0, 'MISSED'),
+                cnt(-1, 'VIOLATION+replay'), cnt(-1, 'VIOLATION no-'), cnt(-1, 'MISSED'), sum(1 for r in sel if not r[3])))
+    left = [r[0] for r in rows if r[3] and not r[3][-1].startswith('VIOLATION+replay')]
+    f.write('\nSeeds whose latest run of their own check does not end in a violation with a failing input: %s\n' % (', '.join(sorted(left)) or 'none'))
 print(open('/verif/seeded/RESULTS.md').read()[:200]); print(len(rows), 'seeds')
